@@ -426,7 +426,8 @@ def client_stage(c):
           stored_ok = {k: sl.tag(v) for k, v in stored_trial.items()} == {k: sl.tag(wire_py(v)) for k, v in a.items()}
           meta.append((bname, dumped, a, kind, real, space_changed, stored_ok))
         if shared:
-          gone = _try(study.delete)
+          # deleted by ANOTHER handle (another worker / an operator): `study` itself never learns of it
+          gone = _try(lambda: clients.Study.from_resource_name(study.resource_name).delete())
           if gone[0] != 'ok':
             raise core.InfraError('cannot delete study %s: %s' % (sid, gone[1]))
           prev_shared = study
